@@ -509,6 +509,58 @@ func hubOracles(hr *hubRun, cs hubCase, o *gen.Oracle) []h.Violation {
 			open++
 		}
 	}
+	// C12: one event per update, decoding to what was published, in order
+	if cs.ExactStream && len(hr.conns) > 0 {
+		var want []string
+		for _, op := range cs.Ops {
+			if op.Op == "pub" {
+				want = append(want, fmt.Sprintf("%s|%s|%s", op.Form.Get("id"), op.Form.Get("type"), normEOL(op.Form.Get("data"))))
+			}
+		}
+		var got []string
+		for _, e := range sseParse(hr.conns[0].w.Body()) {
+			got = append(got, fmt.Sprintf("%s|%s|%s", e.ID, e.Type, e.Data))
+		}
+		ok := len(got) == len(want)
+		for i := range want {
+			if ok && got[i] != want[i] && !(strings.HasPrefix(want[i], "|") && strings.HasPrefix(got[i], "urn:uuid:") && got[i][strings.IndexByte(got[i], '|'):] == want[i]) {
+				ok = false
+				add("C12:event-does-not-decode-to-what-was-published", fmt.Sprintf("event %d of the stream decodes to %q, the %d-th update published was %q", i, got[i], i, want[i]))
+
+				break
+			}
+		}
+		if len(got) != len(want) {
+			add("C12:not-one-event-per-update", fmt.Sprintf("%d updates published, %d events on the stream of a '*' subscriber connected from the start", len(want), len(got)))
+		}
+	}
+	// C08: the Last-Event-ID response header is truthful (Bolt, '*' subscribers, public updates)
+	for _, lt := range hr.leidChecks {
+		if lt.resp == lt.req && lt.req != "earliest" {
+			// replay must be everything stored after the FIRST occurrence of the requested id
+			idx := -1
+			for i, id := range lt.stored {
+				if id == lt.req {
+					idx = i
+
+					break
+				}
+			}
+			var want []string
+			if idx >= 0 {
+				want = lt.stored[idx+1:]
+			}
+			got := lt.replayed()
+			if idx < 0 || strings.Join(got, "\n") != strings.Join(want, "\n") {
+				add("C08:response-id-equals-requested-but-replay-incomplete", fmt.Sprintf("connection %d requested %q and was answered %q (= nothing lost), but the stored updates after it are %v and %v were replayed", lt.label, lt.req, lt.resp, want, got))
+			}
+		}
+		if lt.req == "earliest" && lt.resp == "earliest" {
+			if got := lt.replayed(); strings.Join(got, "\n") != strings.Join(lt.stored, "\n") {
+				add("C08:earliest-did-not-replay-whole-history", fmt.Sprintf("connection %d: stored %v, replayed %v", lt.label, lt.stored, got))
+			}
+		}
+	}
 	// C13: a subscriber that cannot be served is cut off, not starved
 	if cs.ExpectAll {
 		joined := map[int]int{}
